@@ -80,6 +80,7 @@ var checks = map[string][]HarnessSpec{
 		{Name: "verifC13RoundTrip", Pkg: "./dns", Labels: []string{"roundtrip"}},
 		{Name: "verifC13Compressed", Pkg: "./dns", Labels: []string{"compressed"}},
 		{Name: "verifC13RefDecode", Pkg: "./dns", Labels: []string{"refdecoded"}},
+		{Name: "verifC13Exact", Pkg: "./dns", Labels: []string{"exact"}},
 		{Name: "verifC13Chain", Pkg: "./dns", Labels: []string{"chain"}},
 		{Name: "verifC13Padding", Pkg: "./dns", Labels: []string{"padded"}},
 		{Name: "verifC13ResponseCode", Pkg: "./dns", Labels: []string{"rcode"}},
